@@ -885,8 +885,10 @@ subroutine solve(initial_values, indexes,                                       
            return
         end if
 
-     ! Errors: Raise as required
-     else if(error_control == error_control_raise) then
+     ! Errors: Raise as required. Only a skipped period lets the loop carry
+     ! on: the Python wrapper raises for every other error code whatever the
+     ! error control option, so no later period may be solved
+     else if(error_control == error_control_raise .or. error_code /= numerical_error_skip) then
         return
      end if
 
